@@ -122,8 +122,8 @@ class Unit:
             txt = open(os.path.join(REPO, 'src', fn)).read()
             for pat, rep, cnt in rules:
                 txt, n = re.subn(pat, rep, txt)
-                if n != cnt:
-                    raise Inconclusive('src_subst %r on %s: %d matches, expected %d' % (pat, fn, n, cnt))
+                if n not in (cnt if isinstance(cnt, (list, tuple)) else [cnt]):  # a list = counts allowed (unpatched / patched tree)
+                    raise Inconclusive('src_subst %r on %s: %d matches, expected %s' % (pat, fn, n, cnt))
             with open(os.path.join(d, fn), 'w') as f:
                 f.write(txt)
         return ['-I' + d]
